@@ -596,6 +596,10 @@ class Symbolic(
                 override: Optional[Dict[str, Any]] = None):
     """Clones current object symbolically."""
     assert deep or not memo
+    if deep and memo is None:
+      # Share one memo across the tree, as `copy.deepcopy` does, so that a
+      # non-symbolic object referenced from two places is copied once.
+      memo = {}
     new_value = self._sym_clone(deep, memo)
     if override:
       new_value.sym_rebind(override, raise_on_no_change=False)
